@@ -129,7 +129,6 @@ def __sync__(
                 reflection_cache_unpacked,
                 database_config_unpacked,
             )
-            DBS = DBS.set(dbname, db)
         else:
             updates = {}
 
@@ -142,17 +141,25 @@ def __sync__(
 
             if updates:
                 db = db._replace(**updates)
-                DBS = DBS.set(dbname, db)
 
+        # Unpack everything before installing anything: a failure must not
+        # leave this process ahead of what the server believes it holds.
         if global_schema is not None:
-            GLOBAL_SCHEMA = pickle.loads(global_schema)
+            global_schema_unpacked = pickle.loads(global_schema)
 
         if system_config is not None:
-            INSTANCE_CONFIG = pickle.loads(system_config)
+            system_config_unpacked = pickle.loads(system_config)
 
     except Exception as ex:
         raise state.FailedStateSync(
             f'failed to sync worker state: {type(ex).__name__}({ex})') from ex
+
+    if DBS.get(dbname) is not db:
+        DBS = DBS.set(dbname, db)
+    if global_schema is not None:
+        GLOBAL_SCHEMA = global_schema_unpacked
+    if system_config is not None:
+        INSTANCE_CONFIG = system_config_unpacked
 
     return db
 
